@@ -41,10 +41,11 @@ type Clause struct {
 }
 
 type LoopSpec struct {
-	Inv      []Clause
-	Decr     *Clause
-	Modifies []string
-	Emits    bool
+	Inv       []Clause
+	Decr      *Clause
+	Modifies  []string
+	Preserves []string
+	Emits     bool
 }
 
 type ParamSpec struct {
@@ -517,6 +518,15 @@ func (cs *Contracts) parseFile(path, pkg string) error {
 				for _, it := range strings.Split(body, ",") {
 					if it = strings.TrimSpace(it); it != "" {
 						cur.loop(n).Modifies = append(cur.loop(n).Modifies, it)
+					}
+				}
+			case "preserves":
+				if err := flush(); err != nil {
+					return err
+				}
+				for _, it := range strings.Split(body, ",") {
+					if it = strings.TrimSpace(it); it != "" {
+						cur.loop(n).Preserves = append(cur.loop(n).Preserves, it)
 					}
 				}
 			case "emits":
